@@ -3,6 +3,7 @@
 From Coq Require Import List.
 Require Import BertE.Model.Git BertE.Model.Flow BertE.Proofs.GitProofs BertE.Proofs.FlowProofs BertE.Proofs.C03Proofs.
 Require Import BertE.Model.Queues BertE.Proofs.QueueProofs.
+Require Import BertE.Model.Gate BertE.Proofs.GateProofs.
 Import ListNotations.
 
 (* Queue merge: for any commit graph and any selection satisfying the queue invariants that
@@ -61,3 +62,27 @@ Theorem C03_queue_cycle_green :
   (forall n, ~ In n (map fst (sel_of k qs1)) -> lookup (refs c2) n = lookup (refs c1) n).
 Proof. exact queue_cycle_green. Qed.
 Print Assumptions C03_queue_cycle_green.
+
+(* The decisions that lead to the direct merge give its hypotheses (Model/Gate.v mirrors check_in_sync and
+   queueing.is_needed line by line).  [src, dst]: source branch and first target; [wds]: (integration branch,
+   target) for the targets beyond the first.  With queues on, when is_needed answered False (which implies
+   skip_queue_when_not_needed, nothing queued, the source contains the first target's tip and every integration
+   branch contains its target's tip) and check_in_sync answered True, merge_integration_branches - octopus, or
+   integration branch first - succeeds, creates NO commit, puts the first target on the tip of the source branch
+   and every other target on the tip of its integration branch, and moves nothing else: the destinations advance
+   exactly to the commits whose statuses check_build_status (C06) read. *)
+Theorem C03_skip_queue_direct_merge :
+  forall sg (skip aiq qn : bool) c src dst wds,
+  wf_clone c ->
+  NoDup (dst :: map snd wds) ->
+  (forall w, In w (src :: map fst wds) -> ~ In w (dst :: map snd wds)) ->
+  Forall (fun s => ff_strategy s = true) sg -> length sg = length wds ->
+  is_needed true skip aiq qn c src dst ((src, dst) :: wds) = false ->
+  check_in_sync c src (src :: map fst wds) = true ->
+  exists c', merge_integration sg c ((dst, src) :: map swap wds) = Some c' /\
+             st c' = st c /\
+             lookup (refs c') dst = lookup (refs c) src /\
+             (forall w d, In (w, d) wds -> lookup (refs c') d = lookup (refs c) w) /\
+             (forall n, ~ In n (dst :: map snd wds) -> lookup (refs c') n = lookup (refs c) n).
+Proof. exact skip_queue_direct_merge. Qed.
+Print Assumptions C03_skip_queue_direct_merge.
